@@ -38,6 +38,8 @@ pub enum Cond {
     Cmp(String, CmpOp, i64),
     /// an expression whose evaluation fails (undeclared variable)
     Bad,
+    /// `mark('in', …) & (inner)` – In() probe evaluated during transition selection
+    Probed(Vec<String>, Box<Cond>),
 }
 
 #[derive(Clone, Debug, PartialEq)]
@@ -86,6 +88,8 @@ pub enum Stmt {
     AssignUndeclared,
     /// `gate(n)` probe
     Gate(i64),
+    /// `mark('in', 's1', In('s1'), …)` – In() probe over the listed states (no reference line)
+    InProbe(Vec<String>),
 }
 
 #[derive(Clone, Debug, PartialEq)]
@@ -209,8 +213,23 @@ pub fn xml_escape(s: &str) -> String {
     s.replace('&', "&amp;").replace('<', "&lt;").replace('>', "&gt;").replace('"', "&quot;")
 }
 
+pub fn in_probe_call(states: &[String]) -> String {
+    let mut a = String::from("mark('in'");
+    for s in states {
+        a.push_str(&format!(", '{}', In('{}')", s, s));
+    }
+    a.push(')');
+    a
+}
+
 pub fn render_cond(c: &Cond, dm: Dm) -> String {
     match c {
+        Cond::Probed(states, inner) => format!(
+            "{} {} ({})",
+            in_probe_call(states),
+            if dm == Dm::Ecma { "&&" } else { "&" },
+            render_cond(inner, dm)
+        ),
         Cond::True => "true".to_string(),
         Cond::In(s) => format!("In('{}')", s),
         Cond::Not(x) => format!("!({})", render_cond(x, dm)),
@@ -257,6 +276,7 @@ fn render_block(b: &Block, dm: Dm, out: &mut String, ind: usize) {
                 out.push_str(&format!("{}<script>mark({})</script>\n", pad, xml_escape(&a)));
             }
             Stmt::Gate(n) => out.push_str(&format!("{}<script>gate({})</script>\n", pad, n)),
+            Stmt::InProbe(states) => out.push_str(&format!("{}<script>{}</script>\n", pad, xml_escape(&in_probe_call(states)))),
             Stmt::Raise(e) => out.push_str(&format!("{}<raise event=\"{}\"/>\n", pad, e)),
             Stmt::Assign(v, e) => out.push_str(&format!(
                 "{}<assign location=\"{}\" expr=\"{}\"/>\n",
